@@ -12,7 +12,9 @@ tweaks (0 <-> 1, n -> n + 1), swapped constant subscripts, deleted expression st
 --round2 uses a second operator set instead: flipped comparisons (< -> >), sibling attributes / functions / string options (start_time <->
 end_time, min <-> max, floor <-> ceil, 'right' <-> 'left', append <-> extend ...), a dropped or swapped keyword argument, a dropped
 operand of and / or, continue -> pass, a dropped unary operator, an opened slice bound, swapped branches of a conditional expression,
-a dropped comprehension filter.
+a dropped comprehension filter.  --round3: a variable / attribute / keyword exchanged for its counterpart (start <-> end, low <-> high,
+source <-> target, annotation <-> prediction, row <-> column ... when the counterpart exists in the same function), the first two
+elements of a tuple swapped, a `+ 1` / `- 1` dropped.
 """
 import ast
 import copy
@@ -33,6 +35,26 @@ from sa.report import Ctx, load_known, match_known  # noqa: E402
 
 ROOT = "/repo"
 ROUND2 = "--round2" in sys.argv
+ROUND3 = "--round3" in sys.argv
+TOKENS = [("start", "end"), ("start", "stop"), ("low", "high"), ("min", "max"), ("source", "target"), ("annotation", "prediction"), ("annotations", "predictions"),
+          ("annotated", "predicted"), ("true", "predicted"), ("onset", "offset"), ("left", "right"), ("rows", "cols"), ("row", "column"), ("row", "col"),
+          ("time", "freq"), ("time", "frequency"), ("x", "y"), ("first", "last"), ("width", "height"), ("index1", "index2"), ("geometry1", "geometry2"),
+          ("se1", "se2"), ("match1", "match2"), ("start1", "start2"), ("stop1", "stop2"), ("lower", "upper"), ("before", "after"), ("key", "value"),
+          ("hop", "window"), ("src", "dst"), ("old", "new"), ("aoef", "soundevent"), ("user", "tag"), ("clip", "recording")]
+
+
+def counterparts(name):
+    """names obtained by exchanging one token of a pair (whole name or an underscore-separated part)"""
+    out = []
+    parts = name.split("_")
+    for a, b in TOKENS:
+        for x, y in ((a, b), (b, a)):
+            if name == x:
+                out.append(y)
+            for i, p_ in enumerate(parts):
+                if p_ == x and len(parts) > 1:
+                    out.append("_".join(parts[:i] + [y] + parts[i + 1:]))
+    return out
 CMP = {ast.Lt: ast.LtE, ast.LtE: ast.Lt, ast.Gt: ast.GtE, ast.GtE: ast.Gt, ast.Eq: ast.NotEq, ast.NotEq: ast.Eq, ast.Is: ast.IsNot, ast.IsNot: ast.Is,
        ast.In: ast.NotIn, ast.NotIn: ast.In}
 FLIP = {ast.Lt: ast.Gt, ast.Gt: ast.Lt, ast.LtE: ast.GtE, ast.GtE: ast.LtE}
@@ -62,10 +84,40 @@ def mutants_of(src, wanted):
     tree = ast.parse(src)
     funcs = [n for n in ast.walk(tree) if isinstance(n, (ast.FunctionDef, ast.AsyncFunctionDef)) and (n.name, n.lineno) in wanted]
     points = []
+    fn_names = {}
+    all_attrs = {n.attr for n in ast.walk(tree) if isinstance(n, ast.Attribute)}
+    for fn in funcs:
+        nm = set()
+        for n in ast.walk(fn):
+            if isinstance(n, ast.Name):
+                nm.add(n.id)
+            elif isinstance(n, ast.arg):
+                nm.add(n.arg)
+        fn_names[fn.name] = nm
     for fn in funcs:
         doc = ast.get_docstring(fn)
         for node in ast.walk(fn):
             if isinstance(node, ast.Expr) and isinstance(node.value, ast.Constant) and isinstance(node.value.value, str):
+                continue
+            if ROUND3:
+                if isinstance(node, ast.Name) and isinstance(node.ctx, ast.Load):
+                    for cp in counterparts(node.id):
+                        if cp in fn_names[fn.name] and cp != node.id:
+                            points.append((fn.name, node, ("sibvar", cp)))
+                            break
+                if isinstance(node, ast.Attribute) and isinstance(node.ctx, ast.Load):
+                    for cp in counterparts(node.attr):
+                        if cp in all_attrs:
+                            points.append((fn.name, node, ("sibattr3", cp)))
+                            break
+                if isinstance(node, ast.Tuple) and isinstance(node.ctx, ast.Load) and len(node.elts) >= 2 and ast.unparse(node.elts[0]) != ast.unparse(node.elts[1]):
+                    points.append((fn.name, node, "tupleswap"))
+                if isinstance(node, ast.BinOp) and isinstance(node.op, (ast.Add, ast.Sub)) and isinstance(node.right, ast.Constant) and node.right.value == 1:
+                    points.append((fn.name, node, "dropone"))
+                if isinstance(node, ast.keyword) and node.arg is not None:
+                    for cp in counterparts(node.arg):
+                        points.append((fn.name, node, ("kwname", cp)))
+                        break
                 continue
             if ROUND2:
                 pass
@@ -153,6 +205,26 @@ def mutants_of(src, wanted):
             v = node.slice.value
             twin.slice = ast.Constant(value={0: 1, 1: 0, 2: 3, 3: 2, -1: 0}.get(v, v + 1))
             desc = f"{ast.unparse(node)[:50]} -> [{twin.slice.value}]"
+        elif isinstance(kind, tuple) and kind[0] == "sibvar":
+            twin.id = kind[1]
+            desc = f"{node.id} -> {kind[1]}"
+        elif isinstance(kind, tuple) and kind[0] == "sibattr3":
+            twin.attr = kind[1]
+            desc = f"{ast.unparse(node)[:50]} -> .{kind[1]}"
+        elif kind == "tupleswap":
+            twin.elts[0], twin.elts[1] = twin.elts[1], twin.elts[0]
+            desc = f"({ast.unparse(node)[:50]}): first two elements swapped"
+        elif kind == "dropone":
+            for parent in ast.walk(t2):
+                for field, val in ast.iter_fields(parent):
+                    if val is twin:
+                        setattr(parent, field, twin.left)
+                    elif isinstance(val, list) and any(v is twin for v in val):
+                        val[[i for i, v in enumerate(val) if v is twin][0]] = twin.left
+            desc = f"{ast.unparse(node)[:50]}: the +/- 1 dropped"
+        elif isinstance(kind, tuple) and kind[0] == "kwname":
+            desc = f"keyword {node.arg}= -> {kind[1]}="
+            twin.arg = kind[1]
         elif kind == "flip":
             twin.ops = [FLIP[type(twin.ops[0])]()]
             desc = f"{ast.unparse(node)} -> {ast.unparse(twin)}"
